@@ -1209,6 +1209,9 @@ def check_C15(tier, seed, replay):
         if os.path.exists(dest):
             os.remove(dest)
         out["compile"] = run_door([front, "compile", pth, dv, dest])
+        if os.path.exists(dest):
+            os.remove(dest)
+        out["compile_exit"] = run_door([front, "compile_exit", pth, dv, dest])
         cmd = [cli]
         for x in (derives or []):
             cmd += ["-d", x]
@@ -1263,7 +1266,7 @@ def check_C15(tier, seed, replay):
     for (gid, name, text, derives, expect, answer_only), o in zip(cases, outs):
         if expect == "error":
             nontriv += 1
-        for door in ("lib", "compile", "cli"):
+        for door in ("lib", "compile", "compile_exit", "cli"):
             if door == "cli" and derives == []:
                 continue        # the command line cannot express the empty derive set
             r = o[door]
@@ -1277,6 +1280,8 @@ def check_C15(tier, seed, replay):
                 got = "code" if r["out"].startswith("code") else "error" if r["out"].startswith("error") else "?"
             elif door == "compile":
                 got = "code" if r["out"].startswith("ok") else "error" if r["out"].startswith("err") else "?"
+            elif door == "compile_exit":
+                got = "code" if (r["code"] == 0 and r["out"].startswith("ok")) else "error" if r["code"] != 0 else "?"
             else:
                 got = "code" if r["code"] == 0 else "error"
             if got == "?":
@@ -1301,11 +1306,11 @@ def check_C15(tier, seed, replay):
                                   {"name": name, "door": door, "grammar": text[:2000], "observed": o[door],
                                    "site": "%s:%s" % (door, kind if kind != "mutated" else name)}))
     res.coverage = {
-        "states": t["distinct"], "transitions": max(t["states"], 1), "traces_validated_against_impl": len(cases) * 3 + len(robust) * 2 + len(dir_cases),
-        "evaluations": len(cases) * 3 + len(robust) * 2 + len(dir_cases), "distinct_nontrivial": nontriv,
+        "states": t["distinct"], "transitions": max(t["states"], 1), "traces_validated_against_impl": len(cases) * 4 + len(robust) * 2 + len(dir_cases),
+        "evaluations": len(cases) * 4 + len(robust) * 2 + len(dir_cases), "distinct_nontrivial": nontriv,
         "rule": "per documented restriction: violating grammars in varied contexts and nearest valid neighbours, include "
                 "graphs on three rules, identifier spellings, derive sets (verdict by CompileFront.tla) through the "
-                "library, Compile::run and peginator-cli, each case in its own process; plus seeded mutations / truncations "
+                "library, Compile::run, Compile::run_exit_on_error (exit status) and peginator-cli, each case in its own process; plus seeded mutations / truncations "
                 "of valid grammars and deep nestings (totality only); non-trivial = grammar the specification rejects",
         "exhaustive": False,
         "samples": [{"grammar": c[1], "expected": c[4], "lib": o["lib"]["out"][:80], "cli_exit": o["cli"]["code"]}
